@@ -248,6 +248,11 @@ def _case_illformed(ctx, spec):
     # tree-level classes use the direct API on a set-up tree
     if klass in ("trade_nan_price", "nan_price_open_position", "transact_nan_price"):
         pr[bad][k] = None
+    if klass == "nan_price_open_position" and spec.get("custom_flat") and k >= 3:
+        # the quote is 0 (a suspended name marked at nothing) for two dates before it disappears: the position is still open
+        pr[bad][k - 1] = 0.0
+        pr[bad][k - 2] = 0.0
+        labs.append("zero_marks_before_the_gap")
     if klass == "trade_zero_price":
         pr[bad][k] = 0.0
     data = interp.mk_frame(ds, pr)
